@@ -42,14 +42,14 @@ namespace ops = bspline::operators;
 struct Op {
   int code = 0, a = 0, b = 0, c = 0, d = 0;
 };
-enum Focus { F_C09 = 1, F_C10 = 2, F_C14 = 4, F_ALL = 7, F_C02 = 8, F_C15 = 16 };
+enum Focus { F_C09 = 1, F_C10 = 2, F_C14 = 4, F_ALL = 7, F_C02 = 8, F_C15 = 16, F_C08 = 32 };
 
 enum Code {
   G_NEW, G_NEW_INVALID, G_COPY, G_ASSIGN, G_EQUAL_DISTINCT, G_ACCESS,
   S_NEW, S_NEW_INVALID, S_EMPTY, S_WHOLE, S_COPY, S_MOVE, S_ASSIGN, S_MOVE_ASSIGN, S_SELF_ASSIGN, S_UNION, S_INTERSECT, S_ACCESS, S_CONVERT,
   P_NEW, P_NEW_BADCOUNT, P_EMPTY, P_COPY, P_MOVE, P_ASSIGN, P_MOVE_ASSIGN, P_SELF_ASSIGN, P_SELF_MOVE_ASSIGN, P_CROSS_ASSIGN,
   P_SCALE, P_DIV, P_NEG, P_ISCALE, P_IDIV, P_ADD, P_SUB, P_MUL, P_IADD, P_ISUB, P_LINCOMB, P_LINCOMB_BAD,
-  P_APPLY, P_APPLY_SPLINEOP, P_LINFORM, P_BILFORM, P_EVAL, P_PRED, P_FRONTBACK, P_MOVE_REUSE, P_EVAL_MUTATE, P_INTERPOLATE,
+  P_APPLY, P_APPLY_SPLINEOP, P_LINFORM, P_BILFORM, P_EVAL, P_PRED, P_FRONTBACK, P_MOVE_REUSE, P_EVAL_MUTATE, P_INTERPOLATE, P_REGRID,
   CODE_COUNT
 };
 inline const char *code_name(int c) {
@@ -57,7 +57,7 @@ inline const char *code_name(int c) {
                             "S_NEW", "S_NEW_INVALID", "S_EMPTY", "S_WHOLE", "S_COPY", "S_MOVE", "S_ASSIGN", "S_MOVE_ASSIGN", "S_SELF_ASSIGN", "S_UNION", "S_INTERSECT", "S_ACCESS", "S_CONVERT",
                             "P_NEW", "P_NEW_BADCOUNT", "P_EMPTY", "P_COPY", "P_MOVE", "P_ASSIGN", "P_MOVE_ASSIGN", "P_SELF_ASSIGN", "P_SELF_MOVE_ASSIGN", "P_CROSS_ASSIGN",
                             "P_SCALE", "P_DIV", "P_NEG", "P_ISCALE", "P_IDIV", "P_ADD", "P_SUB", "P_MUL", "P_IADD", "P_ISUB", "P_LINCOMB", "P_LINCOMB_BAD",
-                            "P_APPLY", "P_APPLY_SPLINEOP", "P_LINFORM", "P_BILFORM", "P_EVAL", "P_PRED", "P_FRONTBACK", "P_MOVE_REUSE", "P_EVAL_MUTATE", "P_INTERPOLATE"};
+                            "P_APPLY", "P_APPLY_SPLINEOP", "P_LINFORM", "P_BILFORM", "P_EVAL", "P_PRED", "P_FRONTBACK", "P_MOVE_REUSE", "P_EVAL_MUTATE", "P_INTERPOLATE", "P_REGRID"};
   return c >= 0 && c < CODE_COUNT ? n[c] : "?";
 }
 
@@ -129,7 +129,7 @@ class Interp {
   bool failed = false;
   std::string why;
   // classification flags (non-trivial rules of C09 / C10 / C14)
-  bool nt_c09 = false, nt_c10 = false, nt_c14 = false;
+  bool nt_c09 = false, nt_c10 = false, nt_c14 = false, nt_c08 = false;
   size_t steps_done = 0, throws_seen = 0, moves_seen = 0;
   std::vector<int> executed;  // opcodes that actually ran (pool non-empty)
 
@@ -403,18 +403,25 @@ class Interp {
   // invalid constructions belong to C08 / C11 and are not asserted here).
   template <class F>
   bool call(const char *what, bool must_throw, F &&f, int owner = 0) {
-    bool threw = false;
+    bool threw = false, code_ok = true;
     try {
       f();
     } catch (const BSplineException &e) {
       threw = true;
+      code_ok = e.getErrorCode() == bspline::exceptions::ErrorCode::DIFFERING_GRIDS;
       if (!must_throw) fail("C09", std::string(what) + " threw although its arguments are valid: " + e.what());
     } catch (const std::exception &e) {
       fail("C09", std::string(what) + " threw foreign exception " + e.what());
       return false;
     }
     if (threw) throws_seen++;
-    if (must_throw && !threw && (focus & owner)) fail("C09", std::string(what) + " did not throw for an index outside the view");
+    if (owner == F_C08) {
+      // C08 in histories: whatever the objects went through before (operations with equal grids in distinct objects,
+      // re-seating by assignment or move), arguments on logically different grids are refused with the differing-grids code
+      if (must_throw) nt_c08 = true;
+      if (must_throw && !threw && (focus & F_C08)) fail("C08", std::string(what) + " on logically different grids did not throw");
+      if (must_throw && threw && !code_ok && (focus & F_C08)) fail("C08", std::string(what) + " on logically different grids threw a library exception without the differing-grids code");
+    } else if (must_throw && !threw && (focus & owner)) fail("C09", std::string(what) + " did not throw for an index outside the view");
     return !threw && !must_throw;
   }
   // no expectation about throwing (guard may or may not be reachable); only foreign exceptions are reported
@@ -601,7 +608,7 @@ class Interp {
         touch(1, a); touch(1, b);
         bool differ = !same_points(sups[a].getGrid(), sups[b].getGrid());
         std::optional<Support<T>> r;
-        if (call(op.code == S_UNION ? "calcUnion" : "calcIntersection", differ, [&] { r.emplace(op.code == S_UNION ? sups[a].calcUnion(sups[b]) : sups[a].calcIntersection(sups[b])); }))
+        if (call(op.code == S_UNION ? "calcUnion" : "calcIntersection", differ, [&] { r.emplace(op.code == S_UNION ? sups[a].calcUnion(sups[b]) : sups[a].calcIntersection(sups[b])); }, F_C08))
           store(sups, std::move(*r), 1, 0);
         else if (differ) { involve(1, a); involve(1, b); }
         return true;
@@ -706,7 +713,7 @@ class Interp {
         with_ord<MAXO>(*oo, [&](auto O) { unary<decltype(O)::value>(op); });
         return true;
       }
-      case P_CROSS_ASSIGN: case P_ADD: case P_SUB: case P_MUL: case P_IADD: case P_ISUB: case P_BILFORM: case P_PRED: case P_APPLY_SPLINEOP: case P_MOVE_REUSE: case P_EVAL_MUTATE: {
+      case P_CROSS_ASSIGN: case P_ADD: case P_SUB: case P_MUL: case P_IADD: case P_ISUB: case P_BILFORM: case P_PRED: case P_APPLY_SPLINEOP: case P_MOVE_REUSE: case P_EVAL_MUTATE: case P_REGRID: {
         auto oa = pick_order(op.a), ob = pick_order(op.b);
         if (!oa || !ob) return false;
         with_ord<MAXO>(*oa, [&](auto A) { with_ord<MAXO>(*ob, [&](auto B) { binary<decltype(A)::value, decltype(B)::value>(op); }); });
@@ -903,7 +910,7 @@ class Interp {
           if (op.code == P_ADD) { auto r = va[a] + vb[b]; check_gap_zero(r, sa, sb, "a+b"); store_spline(std::move(r), fam(ka, a)); }
           else if (op.code == P_SUB) { auto r = va[a] - vb[b]; check_gap_zero(r, sa, sb, "a-b"); store_spline(std::move(r), fam(ka, a)); }
           else store_spline(va[a] * vb[b], fam(ka, a));
-        });
+        }, F_C08);
         if (!ok && differ) failing();
         break;
       }
@@ -917,7 +924,7 @@ class Interp {
           const Support<T> sa_before = sa, sb_before = sb;
           bool ok = call(op.code == P_IADD ? "a+=b" : "a-=b", differ, [&] {
             if (op.code == P_IADD) va[a] += vb[b]; else va[a] -= vb[b];
-          });
+          }, F_C08);
           if (ok) check_gap_zero(va[a], sa_before, sb_before, op.code == P_IADD ? "a+=b" : "a-=b");
           if (!ok && differ) {
             failing(); nt_c14 = true;
@@ -934,7 +941,7 @@ class Interp {
             case 2: (void)bspline::integration::BilinearForm{ops::Dx<2>{} + ops::X<2>{}}(va[a], vb[b]); break;
             default: (void)bspline::integration::BilinearForm{ops::Dx<1>{}, mk(-1, 2) * (ops::X<1>{} * ops::Dx<1>{})}(va[a], vb[b]); break;
           }
-        });
+        }, F_C08);
         if (!ok && differ) failing();
         break;
       }
@@ -946,7 +953,7 @@ class Interp {
         // factor vb[b] (orders 0..1 to keep result orders small), operand va[a]
         if constexpr (ob <= 1) {
           if (partial) nt_c09 = true;
-          bool must = differ && sa.containsIntervals();
+          bool must = differ && sa.containsIntervals() && (unsigned)op.a % 4 != 3;
           bool ok = call("SplineOperator application", must, [&] {
             switch ((unsigned)op.a % 4) {
               case 0: store_spline(ops::SplineOperator{vb[b]} * va[a], fam(ka, a)); break;
@@ -954,7 +961,7 @@ class Interp {
               case 2: (void)bspline::integration::LinearForm{ops::X<1>{} * ops::SplineOperator{vb[b]}}(va[a]); break;
               default: break;  // handled below
             }
-          });
+          }, F_C08);
           if ((unsigned)op.a % 4 == 3) {
             // bilinear form with a spline factor: the grid guard is reached only on intervals common to both operands
             size_t a2 = (a + 1) % va.size();
@@ -964,8 +971,8 @@ class Interp {
             bool share = false;
             if (!d2) share = classify_share(sa, p2.getSupport());
             auto form = [&] { (void)bspline::integration::BilinearForm{ops::SplineOperator{vb[b]}, ops::Dx<0>{}}(va[a], p2); };
-            if (d2) call("BilinearForm{SplineOperator} operands on different grids", true, form);
-            else if (share) call("BilinearForm{SplineOperator}", differ, form);
+            if (d2) call("BilinearForm{SplineOperator} operands on different grids", true, form, F_C08);
+            else if (share) call("BilinearForm{SplineOperator}", differ, form, F_C08);
             else if (!differ) call("BilinearForm{SplineOperator} without common interval", false, form);
             else free_call("BilinearForm{SplineOperator} guard unreachable", form);
           }
@@ -1003,6 +1010,66 @@ class Interp {
         }
         break;
       }
+      case P_REGRID: {
+        // "a remembered answer about grids survives a re-seat": (1) a working copy x of va[a] is combined successfully,
+        // in both operand positions, with a partner q that lives on an EQUAL grid held in a DISTINCT object; (2) x is
+        // re-seated onto the grid of vb[b] through one of the assignment / move paths; (3) x op q and q op x are
+        // refused iff the two grids now differ logically. Support-level variant included.
+        if constexpr (ob <= oa) {
+          Grid<T> g2(grid_points(sa.getGrid()));
+          std::optional<Spline<T, oa>> qo;
+          if (!valid_call("spline on an equal grid in a distinct object", [&] {
+                Support<T> s2 = sa.empty() ? Support<T>::createEmpty(g2) : Support<T>(g2, sa.getStartIndex(), sa.getEndIndex());
+                qo.emplace(std::move(s2), va[a].getCoefficients());
+              })) break;
+          Spline<T, oa> &q = *qo;
+          Spline<T, oa> x(va[a]);
+          Support<T> sx = x.getSupport(), sq = q.getSupport();
+          const unsigned kind_op = (unsigned)op.a % 7;
+          auto combine = [&](Spline<T, oa> &l, Spline<T, oa> &r, bool inplace_allowed) {
+            switch (kind_op) {
+              case 0: (void)(l + r); break;
+              case 1: (void)(l - r); break;
+              case 2: (void)(l * r); break;
+              case 3: if (inplace_allowed) l += r; else (void)(l + r); break;
+              case 4: if (inplace_allowed) l -= r; else (void)(l - r); break;
+              case 5: (void)bspline::integration::ScalarProduct{}(l, r); (void)bspline::integration::BilinearForm{ops::X<1>{}, ops::Dx<1>{}}(l, r); break;
+              default: { std::vector<Spline<T, oa>> sp{l, r, l}; std::vector<T> cf{mk(1), mk(-2), mk(1, 2)}; (void)bspline::linearCombination(cf, sp); (void)l.checkOverlap(r); break; }
+            }
+          };
+          // (1) equal grids in distinct objects are the same grid
+          call("x op q with an equal grid in a distinct object", false, [&] { combine(x, q, true); combine(q, x, true); (void)sx.calcUnion(sq); (void)sq.calcIntersection(sx); (void)sx.hasSameGrid(sq); (void)sq.hasSameGrid(sx); }, F_C08);
+          // (2) re-seat x (and the support sx) onto the grid of vb[b]
+          const auto &gb = sb.getGrid();
+          valid_call("re-seating assignment", [&] {
+            switch (((unsigned)op.b >> 1) % 6) {
+              case 0: x = vb[b]; sx = sb; break;                                                    // copy / cross-order assignment
+              case 1: { Spline<T, oa> tmp(gb); tmp = vb[b]; x = std::move(tmp); Support<T> ts(sb); sx = std::move(ts); break; }  // move assignment
+              case 2: x = Spline<T, oa>(gb); sx = Support<T>::createEmpty(gb); break;                  // temporary, interval-free
+              case 3: { Spline<T, oa> tmp(gb); tmp = vb[b]; Spline<T, oa> y(std::move(tmp)); x = std::move(y); sx = Support<T>::createWholeGrid(gb); break; }
+              case 4: { Spline<T, oa> tmp(gb); tmp = vb[b]; std::swap(x, tmp); Support<T> ts(sb); std::swap(sx, ts); break; }
+              default: break;                                                                       // control: no re-seat
+            }
+          });
+          const bool d = !same_points(x.getSupport().getGrid(), g2);
+          // (3)
+          auto xs = snap(x), qs = snap(q);
+          call("x op q after x was re-seated onto another grid", d, [&] { combine(x, q, true); }, F_C08);
+          if (d && (focus & (F_C08 | F_C14)) && (!snap(x).same(xs) || !snap(q).same(qs))) fail(focus & F_C08 ? "C08" : "C14", "a refused operation changed its arguments");
+          xs = snap(x); qs = snap(q);
+          call("q op x after x was re-seated onto another grid", d, [&] { combine(q, x, true); }, F_C08);
+          if (d && (focus & (F_C08 | F_C14)) && (!snap(x).same(xs) || !snap(q).same(qs))) fail(focus & F_C08 ? "C08" : "C14", "a refused operation changed its arguments");
+          const bool ds = !same_points(sx.getGrid(), g2);
+          call("support union after a re-seat", ds, [&] { (void)sx.calcUnion(sq); }, F_C08);
+          call("support intersection after a re-seat", ds, [&] { (void)sq.calcIntersection(sx); }, F_C08);
+          if ((focus & F_C08) && (sx.hasSameGrid(sq) == ds || sq.hasSameGrid(sx) == ds)) fail("C08", "hasSameGrid answers wrongly after a re-seat");
+          if (d) failing();
+          store_spline(std::move(x));
+          store_spline(std::move(q));
+          store(sups, std::move(sx), 1, 0);
+        }
+        break;
+      }
       case P_MOVE_REUSE: {
         // move va[a] away, then use the moved-from object again: it must behave as the zero spline on the same grid
         if constexpr (ob <= oa) {
@@ -1013,7 +1080,7 @@ class Interp {
             auto r = inv(va[a]);
             if (!r.empty()) fail("C10", "moved-from spline: " + r);
             if (differ) {
-              call("moved-from + b (different grids)", true, [&] { (void)(va[a] + vb[b]); });
+              call("moved-from + b (different grids)", true, [&] { (void)(va[a] + vb[b]); }, F_C08);
             } else {
               valid_call("re-use of a moved-from spline", [&] {
                 auto s1 = va[a] + vb[b];  // must equal b as a function: same window and coefficients as b promoted
@@ -1062,7 +1129,7 @@ class Interp {
     call("linearCombination", differ, [&] {
       if (op.d & 4) store_spline(bspline::linearCombination(cf.begin(), cf.end(), sp.begin(), sp.end()));
       else store_spline(bspline::linearCombination(cf, sp));
-    });
+    }, F_C08);
   }
 };
 }  // namespace hist
